@@ -611,6 +611,100 @@ def unit_normlist(slmode, classes=None):
     return run
 
 
+def unit_normlist_history(slmode):
+    """State outliving a call: the reverse pass of a FeatNormalizerList must be the chain rule AT THE FEATURES IT IS HANDED, whatever the object did before.  One list
+    object: forward pass on an array X; the caller then overwrites X in place (the next grid block, the same buffer); reverse pass on X — compared element by element
+    with the reverse pass of a freshly built list on the new values.  Likewise forward after forward, and reverse after reverse, on the re-used buffer."""
+    def run(ctx):
+        it = ctx.interp
+        nmod = it.load_module(NMOD)
+        L = nmod.ns["FeatNormalizerList"]
+        fq = ["%s:FeatNormalizerList.%s" % (NMOD, f) for f in ("get_normalized_feature_vector", "get_derivative_wrt_unnormed_features", "_get_rho_and_inh")]
+        nsl = 3 if slmode in ("npa", "nst") else 2
+
+        def build():
+            norms = [None] * nsl
+            hy = []
+            k = 0
+            for name in NORMS:
+                cls, names, pv = norm_ctor(it, nmod, name)
+                pv = {n: tm.var("q%d_%s" % (k, n)) for n in names}
+                norms.append(it.call(cls, [pv[n] for n in names], {}))
+                if "const2" in pv:
+                    hy.append(tm.mk_le(tm.ZERO, pv["const2"]))
+                k += 1
+            norms.append(None)
+            return norms, hy
+        norms, hy = build()
+        nfeat = len(norms)
+        cutoff = tm.var("cutoff")
+        hy.append(tm.mk_lt(tm.ZERO, cutoff))
+        XA, XB = sym_array("XA", (1, nfeat, NS)), sym_array("XB", (1, nfeat, NS))
+        G0 = sym_array("G", (1, nfeat, NS))
+        hyps = list(hy)
+        for X0 in (XA, XB):
+            for s_ in range(NS):
+                hyps.append(tm.mk_lt(cutoff, X0[0, 0, s_]))
+                hyps.append(tm.mk_le(tm.ZERO, X0[0, 1, s_]))
+                if nsl == 3:
+                    hyps.append(tm.mk_le(tm.ZERO, X0[0, 2, s_]))
+        it.hyps = list(hyps)
+        used = it.call(L, [norms, slmode], {"cutoff": cutoff})
+        fresh = it.call(L, [build()[0], slmode], {"cutoff": cutoff})
+
+        def scenario():
+            buf = XA.copy()
+            it.call_method(used, "get_normalized_feature_vector", [buf])
+            buf[...] = XB                                    # the caller re-uses its buffer for the next block
+            d_used = it.call_method(used, "get_derivative_wrt_unnormed_features", [buf, G0.copy()])
+            f_used = it.call_method(used, "get_normalized_feature_vector", [buf])
+            d_again = it.call_method(used, "get_derivative_wrt_unnormed_features", [buf, G0.copy()])
+            d_new = it.call_method(fresh, "get_derivative_wrt_unnormed_features", [XB.copy(), G0.copy()])
+            f_new = it.call_method(fresh, "get_normalized_feature_vector", [XB.copy()])
+            return d_used, f_used, d_again, d_new, f_new
+        try:
+            ps = all_paths(it, scenario)
+        except (Unsupported, PyRaise) as e:
+            ctx.undecided("normlist history[%s] runs" % slmode, str(e)[:200], fq)
+            return
+        ok = [p for p in ps if p[0] == "return"]
+        ctx.holds("normlist history[%s]: the call sequence returns on every path" % slmode, len(ok) == len(ps) and len(ok) >= 1, "%s" % [(p[0], str(p[1])[:80]) for p in ps if p[0] != "return"][:2], fq)
+        for pi, (o_, val, pc, _) in enumerate(ok):
+            d_used, f_used, d_again, d_new, f_new = [np.asarray(v, dtype=object) for v in val]
+            H = hyps + list(pc)
+            for idx in np.ndindex(*d_new.shape):
+                for nm, a in (("reverse pass after a forward pass on the buffer's previous contents", d_used), ("second reverse pass", d_again)):
+                    if tm.lift(a[idx]) is tm.lift(d_new[idx]):
+                        ctx.holds("normlist history[%s]#%d %s %s = fresh list" % (slmode, pi, nm, list(idx)), True, "", fq)
+                    else:
+                        ctx.equal("normlist history[%s]#%d %s %s = fresh list" % (slmode, pi, nm, list(idx)), H, a[idx], d_new[idx], fq, replay=replay_normlist_history(slmode, nsl))
+                if tm.lift(f_used[idx]) is tm.lift(f_new[idx]):
+                    ctx.holds("normlist history[%s]#%d forward pass on the re-used buffer %s = fresh list" % (slmode, pi, list(idx)), True, "", fq)
+                else:
+                    ctx.equal("normlist history[%s]#%d forward pass on the re-used buffer %s = fresh list" % (slmode, pi, list(idx)), H, f_used[idx], f_new[idx], fq, replay=replay_normlist_history(slmode, nsl))
+    return run
+
+
+def replay_normlist_history(slmode, nsl):
+    def replay(wit):
+        fe = env_floats(wit or {})
+        cutoff = fe.get("cutoff", 1e-10)
+        used, fresh = native_list(slmode, nsl, fe, cutoff), native_list(slmode, nsl, fe, cutoff)
+        nfeat = used.nfeat
+        mk = lambda nm, off: np.array([[[fe.get("%s_0_%d_%d" % (nm, i, s_), off + 0.1 * i + 0.07 * s_) for s_ in range(NS)] for i in range(nfeat)]])
+        XA, XB, G = mk("XA", 0.5), mk("XB", 0.9), np.ones((1, nfeat, NS))
+        buf = XA.copy()
+        used.get_normalized_feature_vector(buf)
+        buf[...] = XB
+        d_used = used.get_derivative_wrt_unnormed_features(buf, G.copy())
+        f_used = used.get_normalized_feature_vector(buf)
+        d_new = fresh.get_derivative_wrt_unnormed_features(XB.copy(), G.copy())
+        f_new = fresh.get_normalized_feature_vector(XB.copy())
+        err = max(float(np.max(np.abs(d_used - d_new))), float(np.max(np.abs(f_used - f_new))))
+        return {"reproduced": bool(err > 1e-12), "max difference used vs fresh list": err, "slmode": slmode}
+    return replay
+
+
 def native_list(slmode, nsl, fe, cutoff, classes=None):
     import ciderpress.dft.feat_normalizer as fn
     norms = [None] * nsl
@@ -689,6 +783,7 @@ def units():
     u.append(("featlist", unit_featlist))
     u += [("norm/" + n, unit_norm(n)) for n in NORMS]
     u += [("normlist/" + m, unit_normlist(m)) for m in SLMODES]
+    u += [("normlist-history/" + m, unit_normlist_history(m)) for m in SLMODES]
     # lists that hold only some of the normaliser classes (a reverse pass that decides what to route by looking at the classes present must get every
     # combination right): each class alone and the pairs without a GeneralNormalizer
     for sub in (["InhomogeneityNormalizer"], ["DensityNormalizer"], ["GeneralNormalizer"], ["ConstantNormalizer", "InhomogeneityNormalizer"],
